@@ -38,7 +38,7 @@ NAV = {'words': ('senses', 'synsets'), 'senses': ('word', 'synset'),
 
 @st.composite
 def _cases(draw):
-    u = draw(gen.universes(attachments=False, relations=True))
+    u = draw(gen.universes(attachments=False, relations=True, ext_new_forms=True))
     specs = [gen.spec_of(d) for d in u['lexicons']]
     langs = sorted({d['language'] for d in u['lexicons']})
     mode = draw(st.sampled_from(['default', 'one', 'several', 'several', 'lang']))
@@ -198,6 +198,16 @@ def oracle(case):
             if [key_of(x) for x in img] != direct:
                 out.append(Disc('image', f'/words/{key_of(wd)}/synsets', direct,
                                 [key_of(x) for x in img]))
+    # words reached by different routes report the same forms (an extension in scope may have
+    # added some to a base entry)
+    by_key: dict = {}
+    for wd in list(objs['w']):
+        fs = sorted((str(f), f.script or '') for f in wd.forms())
+        first = by_key.setdefault(key_of(wd), fs)
+        if fs != first:
+            out.append(Disc('same-word-different-forms', f'/words/{key_of(wd)}', first, fs,
+                            note='Word objects for one entry obtained by different routes'))
+            break
     for ss in w.synsets():
         objs['ss'].append(ss)
         sl = ss.senses()
